@@ -30,6 +30,12 @@ R8.7 fixpoint: every dataset that the manual route creates satisfies
      ``is_properly_compressed``; copying the copy reproduces it verbatim.
 R8.8 ``tdms2rtdc`` exports the dataset's own feature list with the filter
      that removes the empty boundary images and keeps the source logs.
+R8.9 the predicates of ``DEFECTIVE_FEATURES`` (shared by copier and reader)
+     evaluated on model attribute sets: every entry has a replacing ancillary
+     recipe; ``time`` (imprecise, not wrong) is declared defective only when
+     that recipe's requirements – folded from its registration – are present
+     and usable (frame, non-zero frame rate); each predicate equals its
+     documented decision table (software versions, image width, repair log).
 """
 from __future__ import annotations
 
@@ -1160,6 +1166,259 @@ def r88(ctx, repo):
            label="export target", nontrivial=False)
 
 
+# ----------------------------------------------------------------------
+# R8.9 defect predicates on model attribute sets
+
+ANCDIR = "dclab/rtdc_dataset/feat_anc_core/"
+MISSING = "<missing>"
+
+#: predicates that flag data which are merely imprecise: hiding the stored
+#: values is only allowed when the replacing recipe can run
+RECOMPUTE_GUARDED = {
+    "is_defective_feature_time":
+        "float32 time is low-precision information, not wrong data "
+        "(docstring: 'If we cannot compute the ancillary feature, then we "
+        "cannot ignore (even inaccurate) information')",
+}
+#: predicates that flag data known to be *wrong*; dclab hides them whether
+#: or not they can be recomputed (by design, not reported)
+WRONG_DATA = {"is_defective_feature_aspect", "is_defective_feature_volume",
+              "is_defective_feature_inert_ratio",
+              "is_defective_feature_inert_ratio_raw_cvx"}
+
+
+def model_parse_version(v):
+    if not isinstance(v, str):
+        raise L.ModelFault("TypeError", f"parse_version({v!r})")
+    nums = _re.findall(r"\d+", v.split("+")[0])
+    if not nums:
+        return (-1,)
+    return tuple(int(n) for n in nums[:4])
+
+
+def recipe_requirements(repo, feat):
+    """(req_features, [(section, key)…]) of the ancillary recipe(s) that
+    compute `feat` – folded from the AncillaryFeature(...) registrations"""
+    found = []
+    for rel in repo.files(ANCDIR):
+        if f'"{feat}"' not in repo.src(rel):
+            continue
+        for c in ast.walk(repo.tree(rel)):
+            if isinstance(c, ast.Call) and (call_name(c) or "").endswith(
+                    "AncillaryFeature"):
+                fn = kwarg(c, "feature_name", 0)
+                if const_str(fn) != feat:
+                    continue
+                try:
+                    rf = kwarg(c, "req_features")
+                    rc = kwarg(c, "req_config")
+                    rf = ast.literal_eval(rf) if rf is not None else []
+                    rc = ast.literal_eval(rc) if rc is not None else []
+                except ValueError:
+                    raise AnalysisError(f"recipe of {feat}: requirements "
+                                        f"are not literals")
+                cfg = [(sec, k) for sec, keys in rc for k in keys]
+                found.append((list(rf), cfg, c))
+    return found
+
+
+def defect_file(sw=MISSING, events=("time",), tsize=8, attrs=None, logs=()):
+    f = H.H5File("model file")
+    if sw is not MISSING:
+        dict.update(f.attrs, {"setup:software version": sw})
+    dict.update(f.attrs, attrs or {})
+    ev = f.create_group("events")
+    for k in events:
+        dt = H.DType("f", tsize) if k == "time" else H.DType("f", 8)
+        ev.members[k] = H.H5Dataset(ev, k, (2,), dt, None, None, False,
+                                    [1, 2])
+    if logs:
+        lg = f.create_group("logs")
+        for k in logs:
+            lg.members[k] = H.H5Dataset(lg, k, (1,), H.DType("S", 100),
+                                        None, None, False, [b"x"])
+    return f
+
+
+def r89(ctx, repo):
+    tab = repo.module_assign(DEFECT, "DEFECTIVE_FEATURES")
+    entries = {const_str(k): txt(v) for k, v in zip(tab.keys, tab.values)}
+    it = L.Interp(repo)
+    env = it.env(DEFECT, {"parse_version": model_parse_version})
+    preds = sorted(set(entries.values()))
+    for p in preds:
+        if p not in RECOMPUTE_GUARDED and p not in WRONG_DATA:
+            raise AnalysisError(f"feat_defect.{p}: unknown defect predicate "
+                                f"(classify it in rules/C08.py)")
+    # a replacing recipe exists for every entry
+    reqs = {}
+    for feat in sorted(entries):
+        r = recipe_requirements(repo, feat)
+        reqs[feat] = r
+        ctx.ob("R8.9", bool(r),
+               f"'{feat}': an ancillary recipe replaces the hidden data "
+               f"(needs {r[0][0]} {r[0][1]})" if r else
+               f"'{feat}' can be declared defective but no ancillary recipe "
+               f"computes it: the data would just disappear",
+               node=tab, key=f"{DEFECT}::DEFECTIVE_FEATURES::recipe for "
+               f"{feat}")
+
+    def evaluate(pname, f):
+        fn = env.lookup(pname)
+        res = L.run(lambda: fn(f))
+        if res[0] == "ok":
+            if isinstance(res[1], L.Opaque):
+                raise AnalysisError(f"{pname}: un-modelled result")
+            return ("ok", bool(res[1]))
+        return res
+
+    # ---- time: defective => the recipe can run --------------------------
+    for feat, pname in sorted(entries.items()):
+        if pname not in RECOMPUTE_GUARDED:
+            continue
+        node = repo.func(DEFECT, pname)
+        if not reqs[feat]:
+            continue
+        rf, rc, _c = reqs[feat][0]
+        softwares = [MISSING, "", "ShapeIn 2.2.0",
+                     "ShapeIn 2.2.0 | dclab 0.47.5",
+                     "ShapeIn 2.2.0 | dclab 0.47.6",
+                     b"ShapeIn 2.2.0 | dclab 0.40.0", "dclab 0.40.0"]
+        cfg_vals = [MISSING, 0, 0.0, 2000.0]
+        bad_guard = bad_tab = None
+        n = 0
+        for present in itertools.product((True, False), repeat=len(rf)):
+            for vals in itertools.product(cfg_vals, repeat=len(rc)):
+                for tsize, sw in itertools.product((4, 8), softwares):
+                    evs = [feat] + [x for x, p_ in zip(rf, present) if p_]
+                    attrs = {f"{sec}:{k}": v for (sec, k), v in zip(rc, vals)
+                             if v is not MISSING}
+                    f = defect_file(sw, evs, tsize, attrs)
+                    n += 1
+                    res = evaluate(pname, f)
+                    can = all(present) and all(
+                        v is not MISSING and v != 0 for v in vals)
+                    desc = (f"events {evs}, "
+                            + ", ".join(f"{sec}:{k}="
+                                        f"{'missing' if v is MISSING else v}"
+                                        for (sec, k), v in zip(rc, vals))
+                            + f", stored as float{tsize * 8}, software "
+                            f"{'missing' if sw is MISSING else repr(sw)}")
+                    if res[0] != "ok":
+                        bad_tab = bad_tab or (desc, _res(res), "a verdict")
+                        continue
+                    if res[1] and not can and bad_guard is None:
+                        bad_guard = desc
+                    sws = (sw.decode() if isinstance(sw, bytes) else
+                           "" if sw is MISSING else sw)
+                    last = sws.split("|")[-1].strip()
+                    want = can and (tsize == 4 or (
+                        "ShapeIn" in sws and last.startswith("dclab")
+                        and model_parse_version(last.split()[1])
+                        < (0, 47, 6)))
+                    if res[1] != want and bad_tab is None:
+                        bad_tab = (desc, res[1], want)
+        ctx.ob("R8.9", bad_guard is None,
+               f"'{feat}' is only declared defective when its recipe can "
+               f"run ({', '.join(rf)} present, "
+               f"{', '.join(s_ + ':' + k for s_, k in rc)} non-zero) – {n} "
+               f"model files" if bad_guard is None else
+               f"'{feat}' is declared defective for a file with "
+               f"{bad_guard}: the recipe that replaces it needs "
+               f"{rf} and a usable {[s_ + ':' + k for s_, k in rc]} – "
+               f"compress/repack drop the stored data, condense stores "
+               f"inf/nan, the reader hides the only information",
+               node=node, label="defective only if recomputable")
+        ctx.ob("R8.9", bad_tab is None,
+               f"decision table of '{feat}' (float32, or Shape-In data "
+               f"last written by dclab < 0.47.6) – {n} model files"
+               if bad_tab is None else
+               f"{bad_tab[0]}: verdict {bad_tab[1]}, documented "
+               f"{bad_tab[2]}", node=node, label="decision table")
+
+    # ---- wrong-data predicates: documented decision tables ---------------
+    def table(pname, files, want, label, doc):
+        node = repo.func(DEFECT, pname)
+        bad = None
+        for desc, f, w in files:
+            res = evaluate(pname, f)
+            if res != ("ok", w) and bad is None:
+                bad = (desc, _res(res), w)
+        ctx.ob("R8.9", bad is None, f"{doc} – {len(files)} model files"
+               if bad is None else f"{bad[0]}: verdict {bad[1]}, documented "
+               f"{bad[2]}", node=node, label=label)
+
+    if "is_defective_feature_aspect" in preds:
+        files = []
+        for sw in (MISSING, "", "ShapeIn 2.0.6", b"ShapeIn 2.0.7",
+                   "ShapeIn 2.0.5", "ShapeIn 2.0.8", "dclab 0.30.0"):
+            sws = sw.decode() if isinstance(sw, bytes) else sw
+            files.append((f"software {sw!r}", defect_file(sw, ("aspect",)),
+                          sws in ("ShapeIn 2.0.6", "ShapeIn 2.0.7")))
+        table("is_defective_feature_aspect", files, None, "decision table",
+              "aspect is defective exactly for Shape-In 2.0.6 / 2.0.7")
+    if "is_defective_feature_volume" in preds:
+        files = []
+        for sw, w in ((MISSING, False), ("", False), ("ShapeIn 2.0.5", False),
+                      ("ShapeIn 2.0.5 | dclab 0.36.1", True),
+                      (b"ShapeIn 2.0.5 | dclab 0.36.1", True),
+                      ("ShapeIn 2.0.5 | dclab 0.37.0", False),
+                      ("dclab 0.20.0", True),
+                      ("ShapeIn 2 | dclab 0.36.1 | dclab 0.50.0", False)):
+            for fixed in (False, True):
+                files.append((f"software {sw!r}, issue-141 log {fixed}",
+                              defect_file(sw, ("volume",), logs=(
+                                  "dclab_issue_141",) if fixed else ()),
+                              w and not fixed))
+        table("is_defective_feature_volume", files, None, "decision table",
+              "volume is defective when last written by dclab < 0.37.0 and "
+              "not repaired (dclab_issue_141)")
+    if "is_defective_feature_inert_ratio" in preds:
+        files = []
+        for roi in (MISSING, 250, 500, 501, 1000):
+            for sw, old in ((MISSING, False), ("ShapeIn 2.2.0", False),
+                            ("ShapeIn 2.2.0 | dclab 0.48.2", True),
+                            ("ShapeIn 2.2.0 | dclab 0.48.3", False),
+                            ("dclab 0.30.0", True)):
+                attrs = {} if roi is MISSING else {"imaging:roi size x": roi}
+                files.append((f"roi size x {roi}, software {sw!r}",
+                              defect_file(sw, ("tilt",), attrs=attrs),
+                              old and roi is not MISSING and roi > 500))
+        table("is_defective_feature_inert_ratio", files, None,
+              "decision table", "inertia features are defective for images "
+              "wider than 500 px last written by dclab < 0.48.3")
+    if "is_defective_feature_inert_ratio_raw_cvx" in preds:
+        files = []
+        wide = {"imaging:roi size x": 800}
+        for sw, logs, w in (
+                ("ShapeIn 2.0.4 | dclab 0.48.1", (), True),
+                ("ShapeIn 2.0.5 | dclab 0.48.1", (), False),
+                ("ShapeIn 2.2.0 | dclab 0.48.1", (), False),
+                ("2.2.1.0 | dclab 0.48.1", ("shapein-acquisition",), False),
+                ("2.0.4 | dclab 0.48.1", ("shapein-acquisition",), True),
+                ("otherdaq 1.0 | dclab 0.48.1", (), True),
+                ("dclab 0.30.0", (), True),
+                ("ShapeIn 2.0.4 | dclab 0.48.3", (), False),
+                ("ShapeIn 2.0.4", (), False)):
+            files.append((f"wide image, software {sw!r}, logs {logs}",
+                          defect_file(sw, ("inert_ratio_raw",), attrs=wide,
+                                      logs=logs), w))
+        files.append(("narrow image, software 'dclab 0.30.0'",
+                      defect_file("dclab 0.30.0", ("inert_ratio_raw",),
+                                  attrs={"imaging:roi size x": 250}), False))
+        table("is_defective_feature_inert_ratio_raw_cvx", files, None,
+              "decision table", "raw/cvx inertia ratios recorded by "
+              "Shape-In >= 2.0.5 are trusted")
+    # which predicate guards which feature
+    want_map = {"time": "is_defective_feature_time"}
+    for feat, pname in want_map.items():
+        ok = entries.get(feat) == pname
+        ctx.ob("R8.9", ok, f"'{feat}' is tested by {pname}" if ok else
+               f"'{feat}' is tested by {entries.get(feat)}: the "
+               f"recomputability guard of {pname} is bypassed", node=tab,
+               key=f"{DEFECT}::DEFECTIVE_FEATURES::predicate of {feat}")
+
+
 GOOD = {
     "R8.1": "the copy carries the attributes of the source object",
     "R8.3": "the sealed model input is never modified",
@@ -1189,6 +1448,9 @@ def run(ctx):
              minimum=4)
     ctx.rule("R8.8", "tdms2rtdc exports the dataset's feature list, honours "
              "the boundary filter, keeps the logs", minimum=6)
+    ctx.rule("R8.9", "defect predicates on model attribute sets: a replacing "
+             "recipe exists; imprecise data (time) are hidden only when the "
+             "recipe can run; documented decision tables", minimum=14)
     agg = Agg()
     eval_h5ds_copy(ctx, repo, agg)
     eval_rtdc_copy(ctx, repo, agg)
@@ -1198,6 +1460,7 @@ def run(ctx):
     r83_tasks(ctx, repo)
     r85_table(ctx, repo)
     r88(ctx, repo)
+    r89(ctx, repo)
 
 
 CROSSVAL = r"""
@@ -1487,4 +1750,51 @@ MUTANTS = list(MUTANTS) + [
      "dclab/rtdc_dataset/copier.py",
      ("if dst is not None and scalar_feature_exists(feat):",
       "if scalar_feature_exists(feat):"), "R8.6"),
+]
+
+# seeded change /tmp/seed/out_C08/patch3 and relatives (R8.9)
+MUTANTS = list(MUTANTS) + [
+    ("time defective although the frame rate is zero (seeded)", DEFECT,
+     ('    has_ancil = "frame" in h5["events"] and h5.attrs.get('
+      '"imaging:frame rate",\n'
+      '                                                         0) != 0\n',
+      '    has_ancil = "frame" in h5["events"] and "imaging:frame rate" '
+      'in h5.attrs\n'), "R8.9"),
+    ("time defective although there is no frame feature", DEFECT,
+     ('    has_ancil = "frame" in h5["events"] and h5.attrs.get(',
+      '    has_ancil = "time" in h5["events"] and h5.attrs.get('), "R8.9"),
+    ("time: recomputability test dropped", DEFECT,
+     ("    if not has_ancil:\n        return False\n\n    # If we have a 32",
+      "    # If we have a 32"), "R8.9"),
+    ("volume: version threshold moved", DEFECT,
+     ('parse_version(dclab_version) < parse_version("0.37.0")',
+      'parse_version(dclab_version) < parse_version("0.36.0")'), "R8.9"),
+    ("volume: repair log ignored", DEFECT,
+     ('    if "dclab_issue_141" in list(h5.get("logs", {}).keys()):\n'
+      "        return False\n", ""), "R8.9"),
+    ("inertia: width threshold inclusive", DEFECT,
+     ('h5.attrs.get("imaging:roi size x", 0) > 500',
+      'h5.attrs.get("imaging:roi size x", 0) >= 500'), "R8.9"),
+    ("aspect: Shape-In 2.0.7 forgotten", DEFECT,
+     ('["ShapeIn 2.0.6", "ShapeIn 2.0.7"]', '["ShapeIn 2.0.6"]'), "R8.9"),
+    ("raw/cvx: trusted Shape-In version raised", DEFECT,
+     ('parse_version(si_version) >= parse_version("2.0.5")',
+      'parse_version(si_version) > parse_version("2.0.5")'), "R8.9"),
+    ("time tested by the volume predicate", DEFECT,
+     ('    "time": is_defective_feature_time,',
+      '    "time": is_defective_feature_volume,'), "R8.9"),
+]
+
+TWINS = list(TWINS) + [
+    ("time: recomputability test with early returns", DEFECT,
+     ('    has_ancil = "frame" in h5["events"] and h5.attrs.get('
+      '"imaging:frame rate",\n'
+      '                                                         0) != 0\n'
+      "    if not has_ancil:\n        return False\n",
+      '    if "frame" not in h5["events"]:\n        return False\n'
+      '    frame_rate = h5.attrs.get("imaging:frame rate", 0)\n'
+      "    if not frame_rate:\n        return False\n")),
+    ("volume: repair log tested by membership", DEFECT,
+     ('    if "dclab_issue_141" in list(h5.get("logs", {}).keys()):',
+      '    if "dclab_issue_141" in h5.get("logs", {}):')),
 ]
